@@ -48,6 +48,9 @@ def main(tier):
     for i in range(ncase):
         nb = rng.randint(1, 6)
         ctxs = [[10.0 ** rng.uniform(-3, 3) for _ in range(nb)]]
+        if rng.random() < 0.2:
+            # a history that starts with all-zero batches: the running scale is exactly 0 before the first real batch
+            ctxs[0] = [0.0] * rng.randint(1, 2) + ctxs[0]
         if rng.random() < 0.3:
             ctxs.append([10.0 ** rng.uniform(-3, 3) for _ in range(rng.randint(1, 3))])
         cases.append({"seed": ck.seed * 1000 + i, "dtype": ["float32", "float32", "float16", "bfloat16"][i % 4], "activations": ["qint8", "qfloat8_e4m3fn", "qfloat8_e5m2"][i % 3],
